@@ -217,7 +217,17 @@ def build_key(native, v):
             d.update(opts)
             params = None
         items = list(d.items())
-        random.Random(v.get("order", 0)).shuffle(items)
+        mode = v.get("order_mode", "shuffle")
+        if mode == "shuffle":
+            random.Random(v.get("order", 0)).shuffle(items)
+        elif mode == "reversed":
+            items.reverse()
+        elif mode == "sorted":
+            items.sort(key=lambda kv: kv[0])
+        elif mode == "kty-first":
+            items = [kv for kv in items if kv[0] == "kty"] + [kv for kv in items if kv[0] != "kty"]
+        elif mode == "kty-last":
+            items = [kv for kv in items if kv[0] != "kty"] + [kv for kv in items if kv[0] == "kty"]
         d = dict(items)
         given = copy.deepcopy(d)
         gparams = copy.deepcopy(params)
@@ -423,7 +433,8 @@ def gen_variants(rng, native, n):
     while len(picks) < n:
         picks.append(rng.choice(reprs))
     for r in picks[:max(n, 1)]:
-        v = {"repr": r, "order": rng.randrange(1 << 30)}
+        v = {"repr": r, "order": rng.randrange(1 << 30),
+             "order_mode": rng.choice(["shuffle", "shuffle", "reversed", "sorted", "kty-first", "kty-last"])}
         if rng.random() < 0.7:
             v["opts"] = gen_opts(rng)
             if not v["opts"]:
@@ -585,6 +596,67 @@ def gen_thumb_calls(ctx):
 
 
 # --------------------------------------------------------------------------
+# entry points: every public way to a thumbprint / kid that the library exports
+# now must be one this check drives (fail closed on anything else)
+# --------------------------------------------------------------------------
+KNOWN_ENTRIES = {
+    "rfc7638": {"thumbprint"},
+    "key": {"thumbprint", "ensure_kid", "kid", "thumbprint_digest_method", "generate_key(auto_kid)"},
+    "KeySet": {"__init__", "as_dict", "get_by_kid", "import_key_set", "generate_key_set", "keys"},
+    "JWKRegistry": {"generate_key(auto_kid)", "import_key"},
+}
+
+
+def entry_points(ctx, dist):
+    import inspect
+    import joserfc.rfc7638 as M
+    import joserfc.jwk as J
+    from joserfc.jwk import OctKey, RSAKey, ECKey, OKPKey, KeySet, JWKRegistry
+    found, unknown = [], []
+
+    def seen(group, name):
+        found.append(group + "." + name)
+        if name not in KNOWN_ENTRIES[group]:
+            unknown.append(group + "." + name)
+    for n, o in vars(M).items():
+        if not n.startswith("_") and (inspect.isfunction(o) or inspect.isclass(o)) and getattr(o, "__module__", "") == M.__name__:
+            seen("rfc7638", n)
+    for cls in (OctKey, RSAKey, ECKey, OKPKey):
+        for n in dir(cls):
+            if n.startswith("_"):
+                continue
+            o = inspect.getattr_static(cls, n)
+            f = getattr(o, "__func__", o)
+            has_auto = inspect.isfunction(f) and "auto_kid" in inspect.signature(f).parameters
+            if "kid" in n.lower() or "thumb" in n.lower():
+                seen("key", n)
+            elif has_auto:
+                seen("key", n + "(auto_kid)")
+    for cls, group in ((KeySet, "KeySet"), (JWKRegistry, "JWKRegistry")):
+        for n in list(vars(cls)):
+            o = inspect.getattr_static(cls, n)
+            f = getattr(o, "__func__", o)
+            if not inspect.isfunction(f) or (n.startswith("_") and n != "__init__"):
+                continue
+            src = inspect.getsource(f)
+            has_auto = "auto_kid" in inspect.signature(f).parameters
+            if has_auto:
+                seen(group, n + "(auto_kid)")
+            elif "kid" in n.lower() or "thumb" in n.lower() or "ensure_kid" in src or "thumbprint" in src or n in ("import_key", "generate_key_set", "import_key_set"):
+                seen(group, n)
+    for n in dir(J):
+        if not n.startswith("_") and ("thumb" in n.lower()) and n not in ("thumbprint",):
+            unknown.append("jwk." + n)
+    dist["entry_points"] = len(found)
+    ctx.coverage["entry_points_found"] = sorted(set(found))
+    ctx.coverage["entry_points_not_covered"] = sorted(set(unknown))
+    for u in sorted(set(unknown)):
+        ctx.violation({"kind": "entry-point-not-covered", "entry": u},
+                      "the library exports %s, a way to obtain a thumbprint / kid that this check does not drive" % u,
+                      {"entry": u, "no_failing_input_found": True, "broken": "harness entry-point table (fail closed)"})
+
+
+# --------------------------------------------------------------------------
 # the run
 # --------------------------------------------------------------------------
 def run(ctx):
@@ -605,7 +677,7 @@ def run(ctx):
         meta.append(m)
 
     dist = {"json": 0, "sha256": 0, "thumb_direct": 0, "thumb_direct_err": 0, "keys": 0, "key_variants": 0, "ec_short": 0,
-            "kid_flows": 0, "histories": 0, "keysets": 0, "generated": 0, "digest_variants": 0, "spec": 0, "fixtures": 0}
+            "kid_flows": 0, "histories": 0, "digest_matrix": 0, "import_key_set": 0, "entry_points": 0, "keysets": 0, "generated": 0, "digest_variants": 0, "spec": 0, "fixtures": 0}
     per_repr = {}
 
     # ---- reference self-check on the RFC vectors (a failure here is a harness bug)
@@ -667,8 +739,9 @@ def run(ctx):
         materials.append(("oct-foo", b"foo"))
         rsa_gen = rsa.generate_private_key(65537, 2048)
         materials.append(("rsa-2048-generated", rsa_gen))
+        materials.append(("rsa-1024-e3-generated", rsa.generate_private_key(3, 1024)))
         if not ctx.quick:
-            materials.append(("rsa-1024-generated", rsa.generate_private_key(65537, 1024)))
+            materials.append(("rsa-1536-generated", rsa.generate_private_key(65537, 1536)))
             materials.append(("rsa-3072-e3", rsa.generate_private_key(3, 3072)))
         materials.append(("rfc7638-3.1", native_from_jwk(RFC7638_EXAMPLE)))
         materials.append(("rfc8037-A.3", native_from_jwk(RFC8037_A3)))
@@ -711,7 +784,8 @@ def run(ctx):
                                       {"fn": "key", "jwk": j, "variant": {"repr": "literal"}, "want": want})
 
         keys_for_sets = []
-        soft = {"nested": 0, "late_params_probes": 0, "late_params_affected": 0}
+        soft = {"nested": 0, "late_params_probes": 0, "late_params_affected": 0, "noncanonical_probes": 0,
+                "noncanonical_accepted_other_thumbprint": 0, "noncanonical_accepted_same_thumbprint": 0, "noncanonical_refused": 0}
         rsa_budget = {True: ctx.scale(1, 6), False: ctx.scale(2, 6)}
 
         def check_key(label, native, v):
@@ -729,6 +803,12 @@ def run(ctx):
                               "constructing %s as %s raised %r" % (label, v, b[1]), rp)
                 return None
             K, given, owned = b[1]
+            # .kid read first, before thumbprint / ensure_kid (must not freeze "no kid")
+            kid0 = call(lambda: K.kid) if rng.random() < 0.6 else None
+            exp0 = (v.get("opts") or {}).get("kid")
+            if kid0 is not None and kid0 != ("ok", exp0):
+                ctx.violation(dict(sig, kind="kid-before-ensure"),
+                              "kid of the fresh key %s (%s) is %r, expected %r (the given one, or None)" % (label, v["repr"], kid0[1], exp0), rp)
             rec.take()
             r = call(K.thumbprint)
             calls = rec.take()
@@ -1017,7 +1097,174 @@ def run(ctx):
                         break
             elif not (private is True and any(not k.is_private for k in keys)):
                 ctx.violation({"kind": "keyset-raises"}, "KeySet(...).as_dict(private=%r) raised %r" % (private, r[1]), rp)
-        for kty, arg in (("oct", 128), ("EC", "P-256"), ("OKP", "Ed25519")):
+        # ---- F. entry points, digests x key kinds, histories, falsy-but-valid values (systematic, not sampled)
+        entry_points(ctx, dist)
+        groups = {}
+        for label, native in materials:
+            g = label.rsplit("-", 1)[0] if not label.startswith(("fixture:", "rfc", "oct-")) else \
+                ("oct" if label.startswith("oct-") else label)
+            if "short" in label:
+                g = label
+            groups.setdefault(g, []).append((label, native))
+        MISSING = object()
+        for g, ms in sorted(groups.items()):
+            picks = [ms[0]] if ctx.quick else ms[:3]
+            for label, native in picks:
+                kty = kty_of(native)
+                cls = cls_of(kty)
+                pj = ref_jwk(public_of(native))
+                for dg in ("sha256", "sha384", "sha512"):
+                    want = ref_thumbprint(pj, dg)
+                    rp = {"fn": "key", "jwk": ref_jwk(native), "variant": {"repr": "native", "digest": dg}, "want": want, "label": label}
+                    got = {}
+                    sub = type("Sub" + dg, (cls,), {"thumbprint_digest_method": dg})
+                    got["subclass"] = call(lambda: sub(native, native).thumbprint())
+                    got["subclass-import"] = call(lambda: sub.import_key(dict(ref_jwk(native))).thumbprint())
+
+                    def on_instance():
+                        k = cls(native, native)
+                        k.thumbprint_digest_method = dg
+                        return k.thumbprint()
+                    got["instance-attribute"] = call(on_instance)
+
+                    def on_class():
+                        old = cls.__dict__.get("thumbprint_digest_method", MISSING)
+                        try:
+                            cls.thumbprint_digest_method = dg
+                            return cls(native, native).thumbprint()
+                        finally:
+                            if old is MISSING:
+                                delattr(cls, "thumbprint_digest_method")
+                            else:
+                                cls.thumbprint_digest_method = old
+                    got["class-attribute"] = call(on_class)
+                    got["module-function"] = call(lambda: M.thumbprint(dict(cls(native, native).dict_value), [m for m in REQ[kty]][::-1], dg))
+
+                    def auto_kid_sub():
+                        k = sub(native, native, {"use": "sig"})
+                        first = k.kid
+                        k.ensure_kid()
+                        k.ensure_kid()
+                        return (first, k.kid, KeySet([sub(native, native)]).keys[0].kid)
+                    got["auto-kid"] = call(auto_kid_sub)
+                    rec.take()
+                    for via, r in got.items():
+                        dist["digest_matrix"] += 1
+                        ctx.note_case(("digest-matrix", label, dg, via))
+                        exp = ("ok", want) if via != "auto-kid" else ("ok", (None, want, want))
+                        if r != exp:
+                            ctx.violation({"kind": "thumbprint-mismatch", "kty": kty, "repr": "digest-%s-%s" % (dg, via)},
+                                          "%s thumbprint of %s with the digest selected through %s is %r, RFC 7638 value is %r" % (
+                                              dg, label, via, r[1], want), dict(rp, via=via))
+                if cls_of(kty).thumbprint_digest_method != "sha256":
+                    raise RuntimeError("harness bug: thumbprint_digest_method of the shared class was not restored")
+
+        # import_key_set of a JWK Set whose members have no kid / an explicit kid (also the falsy ""), with shared parameters
+        for _ in range(ctx.scale(25, 300)):
+            nats = [rng.choice(materials)[1] for _ in range(rng.randrange(1, 5))]
+            members, exp_kids = [], []
+            for nk in nats:
+                j = ref_jwk(nk if rng.random() < 0.6 else public_of(nk))
+                want = ref_thumbprint(ref_jwk(public_of(nk)))
+                if rng.random() < 0.35:
+                    j["kid"] = rng.choice(KIDS)
+                if rng.random() < 0.3:
+                    j["use"] = "sig"
+                items = list(j.items())
+                rng.shuffle(items)
+                members.append(dict(items))
+                exp_kids.append(j.get("kid", want))
+            shared = rng.choice([None, {}, {"alg": "whatever"}, {"use": "enc"}])
+            if shared and "use" in shared and any("use" in m for m in members):
+                shared = None
+            jwks = {"keys": copy.deepcopy(members)}
+            r = call(lambda: KeySet.import_key_set(jwks, shared))
+            dist["import_key_set"] += 1
+            ctx.note_case(("import_key_set", dist["import_key_set"]))
+            rp = {"fn": "import_key_set", "jwks": {"keys": members}, "parameters": shared, "expected_kids": exp_kids}
+            if r[0] != "ok":
+                ctx.violation({"kind": "keyset-raises", "via": "import_key_set"}, "KeySet.import_key_set raised %r" % (r[1],), rp)
+                continue
+            kids = [k.kid for k in r[1].keys]
+            ex = call(lambda: [e.get("kid") for e in r[1].as_dict(False if all(m["kty"] != "oct" for m in members) else None)["keys"]])
+            if kids != exp_kids or ex != ("ok", exp_kids) or shared not in (None, {}, {"alg": "whatever"}, {"use": "enc"}):
+                ctx.violation({"kind": "keyset-kid", "via": "import_key_set"},
+                              "KeySet.import_key_set: kids %r (exported %r), expected %r (given kid, else the RFC 7638 thumbprint)" % (
+                                  kids, ex[1], exp_kids), rp)
+
+        # generate entry points: auto_kid False / omitted / True, parameters None / {} / shared between keys, public halves
+        for kty, arg in gen_specs:
+            cls = cls_of(kty)
+            for auto in (False, None, True):
+                for via in ("class", "registry"):
+                    shared = rng.choice([None, {}, {"use": "sig"}, {"alg": "a", "zz": "1"}])
+                    snapshot = copy.deepcopy(shared)
+                    private = kty == "oct" or rng.random() < 0.6
+
+                    def gen():
+                        kw = {} if auto is None else {"auto_kid": auto}
+                        if via == "class":
+                            return cls.generate_key(arg, shared, private, **kw)
+                        return JWKRegistry.generate_key(kty, arg, shared, private, **kw)
+                    r = call(lambda: (gen(), gen()))
+                    dist["generated"] += 2
+                    ctx.note_case(("generate-matrix", kty, arg, auto, via, repr(shared)))
+                    rp = {"fn": "generate", "kty": kty, "arg": arg, "auto_kid": auto, "via": via, "parameters": snapshot, "private": private}
+                    if r[0] != "ok":
+                        ctx.violation({"kind": "generate-raises", "kty": kty}, "generate_key(%r, %r, %r, auto_kid=%r) via %s raised %r" % (
+                            kty, arg, snapshot, auto, via, r[1]), rp)
+                        continue
+                    k1, k2 = r[1]
+                    w1, w2 = (ref_thumbprint(ref_jwk(public_of(k.raw_value))) for k in (k1, k2))
+                    first = (k1.kid, k2.kid)
+                    exp_first = (w1, w2) if auto else (None, None)
+                    k1.ensure_kid()
+                    k2.ensure_kid()
+                    k1.ensure_kid()
+                    ks = call(lambda: KeySet([k1, k2]))
+                    problems = []
+                    if first != exp_first:
+                        problems.append("kids right after generation %r, expected %r" % (first, exp_first))
+                    if (k1.kid, k2.kid) != (w1, w2) or (k1.thumbprint(), k2.thumbprint()) != (w1, w2):
+                        problems.append("kids after ensure_kid %r, RFC 7638 thumbprints %r" % ((k1.kid, k2.kid), (w1, w2)))
+                    if shared != snapshot:
+                        problems.append("the shared parameters dict was changed to %r" % (shared,))
+                    if k1.is_private != private:
+                        problems.append("private=%r gave is_private=%r" % (private, k1.is_private))
+                    if ks[0] != "ok" or call(ks[1].get_by_kid, w2) != ("ok", k2) or call(ks[1].get_by_kid, w1) != ("ok", k1):
+                        problems.append("KeySet.get_by_kid(thumbprint) does not find the keys")
+                    if problems:
+                        ctx.violation({"kind": "generate-auto-kid", "kty": kty, "via": via, "auto_kid": str(auto)},
+                                      "generate_key(%r, %r, parameters=%r, private=%r, auto_kid=%r) via %s, twice with one parameters dict: %s" % (
+                                          kty, arg, snapshot, private, auto, via, "; ".join(problems)), rp)
+        # (recorded, not demanded: the property speaks of RFC-conformant JWKs) non-canonical member spellings the importer accepts
+        for label, native in materials:
+            kty = kty_of(native)
+            pj = ref_jwk(public_of(native))
+            alts = []
+            if kty == "EC":
+                for m in ("x", "y"):
+                    raw = b64u_dec(pj[m])
+                    alts.append((m + " with an extra leading zero octet", dict(pj, **{m: b64u(b"\0" + raw)})))
+                    if raw[0] == 0:
+                        alts.append((m + " without its leading zero octet", dict(pj, **{m: b64u(raw.lstrip(b"\0"))})))
+            elif kty == "RSA":
+                alts.append(("e with a leading zero octet", dict(pj, e=b64u(b"\0" + b64u_dec(pj["e"])))))
+            elif kty == "oct" and len(native) % 3:
+                alts.append(("k with base64 padding", dict(pj, k=pj["k"] + "=" * (-len(pj["k"]) % 4))))
+            for what, alt in alts[:2] if ctx.quick else alts:
+                r = call(lambda: JWKRegistry.import_key(dict(alt)).thumbprint())
+                soft["noncanonical_probes"] += 1
+                if r[0] == "ok" and r[1] != ref_thumbprint(pj):
+                    soft["noncanonical_accepted_other_thumbprint"] += 1
+                    soft.setdefault("noncanonical_witnesses", {}).setdefault(
+                        kty + ": " + what, {"jwk": alt, "thumbprint": r[1], "rfc7638_of_the_key": ref_thumbprint(pj)})
+                elif r[0] == "ok":
+                    soft["noncanonical_accepted_same_thumbprint"] += 1
+                else:
+                    soft["noncanonical_refused"] += 1
+
+        for kty, arg in gen_specs:
             r = call(lambda: KeySet.generate_key_set(kty, arg, count=3))
             ctx.note_case(("generate_key_set", kty))
             bad = r[0] != "ok" or any(k.kid != ref_thumbprint(ref_jwk(public_of(k.raw_value))) for k in r[1].keys)
@@ -1119,9 +1366,17 @@ def replay(path):
         if v.get("repr") == "literal":
             from joserfc.jwk import JWKRegistry
             K = JWKRegistry.import_key(dict(jwk))
+        elif v.get("digest") and r.get("via") == "instance-attribute":
+            K = cls_of(jwk["kty"])(native, native)
+            K.thumbprint_digest_method = v["digest"]
+        elif v.get("digest") and r.get("via") == "module-function":
+            import joserfc.rfc7638 as M
+            t = M.thumbprint(dict(cls_of(jwk["kty"])(native, native).dict_value), REQ[jwk["kty"]][::-1], v["digest"])
+            print("rfc7638.thumbprint:", t, " RFC 7638 value:", want)
+            return 1 if t != want else 0
         elif v.get("digest"):
             sub = type("Sub", (cls_of(jwk["kty"]),), {"thumbprint_digest_method": v["digest"]})
-            K = sub(native, native)
+            K = sub.import_key(dict(jwk)) if r.get("via") == "subclass-import" else sub(native, native)
         else:
             K, _, _ = build_key(native, v)
         had = "kid" in K.dict_value
@@ -1138,6 +1393,23 @@ def replay(path):
                 print("member", m, "is", K.dict_value.get(m), "RFC form", ref_jwk(public_of(native))[m])
                 bad = True
         return 1 if bad else 0
+    if r.get("fn") == "import_key_set":
+        from joserfc.jwk import KeySet
+        ks = KeySet.import_key_set(copy.deepcopy(r["jwks"]), r["parameters"])
+        kids = [k.kid for k in ks.keys]
+        print("kids:", kids, "expected:", r["expected_kids"])
+        return 1 if kids != r["expected_kids"] else 0
+    if r.get("fn") == "generate" and "auto_kid" in r:
+        from joserfc.jwk import JWKRegistry
+        kw = {} if r["auto_kid"] is None else {"auto_kid": r["auto_kid"]}
+        p = copy.deepcopy(r["parameters"])
+        K = (cls_of(r["kty"]).generate_key(r["arg"], p, r["private"], **kw) if r["via"] == "class"
+             else JWKRegistry.generate_key(r["kty"], r["arg"], p, r["private"], **kw))
+        want = ref_thumbprint(ref_jwk(public_of(K.raw_value)))
+        first = K.kid
+        K.ensure_kid()
+        print("kid after generation:", first, " after ensure_kid:", K.kid, " RFC 7638 value:", want, " parameters:", p)
+        return 1 if first != (want if r["auto_kid"] else None) or K.kid != want or p != r["parameters"] else 0
     if r.get("fn") == "thumbprint":
         import joserfc.rfc7638 as M
         print(call(M.thumbprint, r["dict"], r["fields"], r["digest"]), "want", r.get("want"))
